@@ -21,7 +21,7 @@ RULE = ('cases = (table, key, count field, conflicts arguments, presorted, buffe
         'that occurs once and a key that occurs more than once. Distinct = SHA-1 of the case.')
 ASSUMPTIONS = ['rectangular tables with hashable cells (property domain)', 'key equality is Python == on key tuples']
 REQUIRED = ['rows=0', 'rows=1', 'run>=3-at-start', 'run>=3-in-middle', 'run>=3-at-end', 'key-none', 'key-compound', 'key-index',
-            'count-column', 'conflict-group', 'agreeing-duplicate-group', 'none-key-duplicated', 'presorted', 'buffersize-chunked', 'later-pass-after-edit(cache=False)']
+            'count-column', 'conflict-group', 'agreeing-duplicate-group', 'none-key-duplicated', 'presorted', 'row-containers:mixed', 'row-containers:tuples', 'buffersize-chunked', 'later-pass-after-edit(cache=False)']
 CELLS = [None, 1, 1.0, True, 2, 'a', b'a', 'b', (1, 2), gen.D(2020, 1, 1), 0, '']
 
 
@@ -85,6 +85,7 @@ def cases(ctx):
                 kw['include'], kw['exclude'] = rng.choice(hdr), rng.choice(hdr)      # both given: exclude overrides include
         if rng.random() < 0.25:
             kw['presorted'] = True
+        kw['rowtypes'] = rng.choice(['lists', 'lists', 'tuples', 'mixed', 'mixed'])
         if rng.random() < 0.25:
             kw['buffersize'] = rng.randint(1, 3)
         yield _mk([hdr] + rows, key, **kw)
@@ -131,6 +132,11 @@ def judge(case, ctx):
         ctx.seen('presorted')
         kw['presorted'] = True
         src = [src[0]] + sorted(src[1:], key=lambda r: util.model_key(keyof(r)))
+    rt = case.get('rowtypes', 'lists')
+    if rt != 'lists':
+        # rows as tuples, or lists and tuples mixed (equal cells are equal rows whatever the container)
+        src = [tuple(src[0]) if rt == 'tuples' else src[0]] + [tuple(r) if (rt == 'tuples' or i % 2) else r for i, r in enumerate(src[1:])]
+        ctx.seen('row-containers:' + rt)
     if case['buffersize'] is not None:
         kw['buffersize'] = case['buffersize']
         if n > case['buffersize']:
